@@ -231,6 +231,7 @@ class Net:
         self.sleeps: list[float] = []
         self.log_events = True
         self.busy_events = 0
+        self.on_fault = None
 
     # -- registry ------------------------------------------------------------
     def add(self, host: str, port: int, factory) -> None:
@@ -274,6 +275,8 @@ class Net:
     def raise_fault(self, fault: str, kind: str, tr, idx: int):
         self.fault_fired.append((idx, kind, fault))
         self.log("fault", tr=tr.id if tr is not None else None, op=idx, fault=fault)
+        if self.on_fault is not None:
+            self.on_fault(idx, kind, fault)
         if fault in ("ReadError", "WriteError", "PartialWrite") and tr is not None:
             tr.broken = True
         exc = {
@@ -376,6 +379,8 @@ class SimAsyncStream(httpcore.AsyncNetworkStream):
             if fault == "EOF":
                 net.fault_fired.append((idx, "read", fault))
                 net.log("fault", tr=tr.id, op=idx, fault=fault)
+                if net.on_fault is not None:
+                    net.on_fault(idx, "read", fault)
                 tr.inbox.clear()
                 tr.server_closed = False
                 tr.server_close()
@@ -550,6 +555,8 @@ class SimSyncStream(httpcore.NetworkStream):
             if fault == "EOF":
                 net.fault_fired.append((idx, "read", fault))
                 net.log("fault", tr=tr.id, op=idx, fault=fault)
+                if net.on_fault is not None:
+                    net.on_fault(idx, "read", fault)
                 tr.inbox.clear()
                 tr.server_closed = False
                 tr.server_close()
